@@ -89,4 +89,150 @@ def holds (tr : List (Op × List Out)) : Bool := (runMon Peer.init tr).2.isNone
 
 end C01
 
+
+/-! ## C02: per-stream byte order, completeness, END_STREAM placement, nothing after the end
+
+The application's outbound byte stream of a stream is the concatenation of everything it wrote (`h ++ data` of every
+`dataFrame` accepted while the stream is established); a byte is identified by its offset in that stream. Every DATA
+frame in a trace carries such an offset (`Out.data id off size es`: the model computes it from its queue; for the real
+writer the driver recognises the payload bytes).  The predicate demands, per stream:
+
+* DATA frames carry consecutive ranges: `off` = number of bytes sent so far (order, no loss, no duplication), never beyond what
+  was written;
+* END_STREAM only on a frame that ends exactly at the end of the data item that asked for it, after which no DATA follows;
+* trailers (HEADERS with END_STREAM) only when every byte written before the trailers were requested has been sent;
+* after trailers or RST_STREAM, or once the writer was told to forget the stream (`cleanupStream`), no further frame for it;
+  reading: the RST_STREAM that is part of the same close action (`serverHeaders.cleanup.rst`, `earlyAbortStream.rst`) directly
+  follows the trailers it belongs to and is allowed (RFC 7540 §8.1).
+
+The environment (http2Client / http2Server) has obligations too; a stream on which it breaks one is marked `wild` and no longer
+judged: stream ids are never reused, a client writes nothing after its END_STREAM item, trailers are requested once, a stream
+that has ended on the wire is not reset again (`cleanupStream{rst:true}`), `earlyAbortStream` only for never-registered ids.
+-/
+namespace C02
+
+inductive Phase | idle | open | closed
+deriving DecidableEq, Repr
+
+structure SS where
+  phase : Phase := .idle
+  wild : Bool := false
+  /-- DATA bytes put on the wire -/
+  sent : Nat := 0
+  /-- bytes written by the application while the stream was open -/
+  written : Nat := 0
+  /-- length of the stream's byte stream, fixed when a data item with endStream was written -/
+  esAt : Option Nat := none
+  esSent : Bool := false
+  /-- value of `written` when trailers were requested -/
+  trailersAt : Option Nat := none
+deriving Repr
+
+structure Mon where
+  str : Nat → SS
+  /-- the stream whose trailers were the previous frame of the current step (an RST_STREAM may follow them directly) -/
+  justTrailers : Option Nat
+
+def Mon.init : Mon := { str := fun _ => {}, justTrailers := none }
+
+def Mon.set (m : Mon) (id : Nat) (x : SS) : Mon := { m with str := fun i => if i = id then x else m.str i }
+
+def hasHeadersFor (id : Nat) (outs : List Out) : Bool :=
+  outs.any fun o => match o with | .headers i _ _ => i == id | _ => false
+
+def openStream (m : Mon) (id : Nat) : Mon :=
+  let x := m.str id
+  if x.phase = .idle then m.set id { phase := .open } else m.set id { x with wild := true }
+
+/-- The part of a control item that concerns the spec, applied before the frames of the step are judged. -/
+def Mon.pre (m : Mon) (op : Op) (outs : List Out) : Mon :=
+  match op with
+  | .register id => openStream m id
+  | .clientHeaders id _ _ => if hasHeadersFor id outs then openStream m id else m
+  | .data id h d es =>
+    let x := m.str id
+    if x.phase = .open then
+      if x.esAt.isSome then m.set id { x with wild := true }
+      else m.set id { x with written := x.written + h + d, esAt := if es then some (x.written + h + d) else none }
+    else m
+  | .serverHeaders id true _ _ _ =>
+    let x := m.str id
+    if x.phase = .open then
+      if x.trailersAt.isSome then m.set id { x with wild := true } else m.set id { x with trailersAt := some x.written }
+    else m
+  | .cleanup id rst _ =>
+    let x := m.str id
+    if x.phase = .open then m else if rst then m.set id { x with wild := true } else m
+  | .earlyAbort id _ _ =>
+    let x := m.str id
+    if x.phase = .idle then m else m.set id { x with wild := true }
+  | _ => m
+
+/-- … and after them. -/
+def Mon.post (m : Mon) (op : Op) : Mon :=
+  match op with
+  | .cleanup id _ _ => let x := m.str id; if x.phase = .open then m.set id { x with phase := .closed } else m
+  | _ => m
+
+def isCleanupOf (op : Op) (id : Nat) : Bool := match op with | .cleanup i _ _ => i == id | _ => false
+def isEarlyAbortOf (op : Op) (id : Nat) : Bool := match op with | .earlyAbort i _ _ => i == id | _ => false
+
+/-- Judge one frame. -/
+def Mon.frame (m : Mon) (op : Op) : Out → Mon × Option String
+  | .data id off size es =>
+    let x := m.str id
+    let m := { m with justTrailers := none }
+    if x.wild then (m, none)
+    else if x.phase ≠ .open then (m, some s!"DATA on stream {id}, which is not open")
+    else if x.esSent then (m, some s!"DATA on stream {id} after END_STREAM")
+    else if off ≠ x.sent then (m, some s!"DATA on stream {id} does not continue the byte stream: out of order, lost or duplicated bytes")
+    else if x.sent + size > x.written then (m, some s!"DATA on stream {id} carries bytes that were never written")
+    else if es ∧ x.esAt ≠ some (x.sent + size) then (m, some s!"END_STREAM on stream {id} on a frame that is not the end of the stream")
+    else (m.set id { x with sent := x.sent + size, esSent := es }, none)
+  | .headers id es _ =>
+    let x := m.str id
+    if x.wild then ({ m with justTrailers := none }, none)
+    else if !es then
+      if x.phase = .open then ({ m with justTrailers := none }, none)
+      else ({ m with justTrailers := none }, some s!"HEADERS on stream {id}, which is not open")
+    else if isEarlyAbortOf op id then ({ m.set id { x with phase := .closed } with justTrailers := some id }, none)
+    else if x.phase ≠ .open then ({ m with justTrailers := none }, some s!"trailers on stream {id}, which is not open")
+    else if x.trailersAt ≠ some x.sent then
+      ({ m with justTrailers := none }, some s!"trailers on stream {id} before all of its DATA")
+    else ({ m.set id { x with phase := .closed } with justTrailers := some id }, none)
+  | .rst id _ =>
+    let x := m.str id
+    let jt := m.justTrailers
+    let m := { m with justTrailers := none }
+    if x.wild then (m, none)
+    else if isCleanupOf op id ∨ jt = some id then (m, none)
+    else (m, some s!"RST_STREAM on stream {id} that was not asked for")
+  | .cb .. => (m, none)
+  | _ => ({ m with justTrailers := none }, none)
+
+def Mon.frames (m : Mon) (op : Op) : List Out → Mon × Option String
+  | [] => (m, none)
+  | o :: os =>
+    match m.frame op o with
+    | (m1, some e) => (m1, some e)
+    | (m1, none) => m1.frames op os
+
+def mstep (m : Mon) (op : Op) (outs : List Out) : Mon × Option String :=
+  if op.outside then (m, none) else
+  match ({ m.pre op outs with justTrailers := none }).frames op outs with
+  | (m1, some e) => (m1, some e)
+  | (m1, none) => (m1.post op, none)
+
+def runMon (m : Mon) : List (Op × List Out) → Mon × Option String
+  | [] => (m, none)
+  | (op, outs) :: t =>
+    match mstep m op outs with
+    | (m1, some e) => (m1, some e)
+    | (m1, none) => runMon m1 t
+
+/-- C02 holds on a trace. -/
+def holds (tr : List (Op × List Out)) : Bool := (runMon Mon.init tr).2.isNone
+
+end C02
+
 end GrpcModel.Loopy
